@@ -179,6 +179,16 @@ fn lkh_instances(tier: Tier) -> Vec<(usize, Vec<f64>)> {
             out.push((g.len(), euclid(&g)));
         }
     }
+    // every 5-tuple (duplicates allowed) over a few integer coordinates: irrational distances with exact ties
+    let coords = [(0., 0.), (3., 0.), (0., 1.), (2., 3.)];
+    product(&[coords.len(); 5], |idx| {
+        // skip tuples which are just a relabelling of an earlier one: first point is always coords[0]-or-later sorted start
+        if idx[0] != 0 {
+            return;
+        }
+        let pts: Vec<(f64, f64)> = idx.iter().map(|i| coords[*i]).collect();
+        out.push((5, euclid(&pts)));
+    });
     out
 }
 
@@ -368,7 +378,7 @@ fn check_partition(points: &[Pt], clusters: &HashMap<Pt, Vec<Pt>>, what: &str) -
     errs
 }
 
-fn check_nearest(clusters: &[(&Pt, &Vec<Pt>)], what: &str) -> Vec<(String, String)> {
+fn check_nearest(clusters: &[(&Pt, &Vec<Pt>)], what: &str, dist: fn(&Pt, &Pt) -> f64) -> Vec<(String, String)> {
     let mut errs = vec![];
     for (medoid, members) in clusters {
         for p in members.iter() {
@@ -386,7 +396,21 @@ fn check_nearest(clusters: &[(&Pt, &Vec<Pt>)], what: &str) -> Vec<(String, Strin
     errs
 }
 
+/// One-way distance (as routing distances are): going to a point with a smaller id is longer.
+fn dist_oneway(a: &Pt, b: &Pt) -> f64 {
+    let d = dist(a, b);
+    if b.id < a.id { d * 2.5 + 0.25 } else { d }
+}
+
 fn check_kmedoids(points: &[Pt]) -> Vec<(String, String, Value)> {
+    let mut errs = check_kmedoids_with(points, false);
+    errs.extend(check_kmedoids_with(points, true));
+    errs
+}
+
+fn check_kmedoids_with(points: &[Pt], oneway: bool) -> Vec<(String, String, Value)> {
+    let dist = if oneway { dist_oneway } else { dist };
+    let check_nearest = |clusters: &[(&Pt, &Vec<Pt>)], what: &str| check_nearest(clusters, what, dist);
     let mut errs: Vec<(String, String, Value)> = vec![];
     let n = points.len();
     // flat
@@ -403,9 +427,9 @@ fn check_kmedoids(points: &[Pt]) -> Vec<(String, String, Value)> {
                 if clusters.len() > k {
                     e.push(("kmedoids:too-many-clusters".into(), format!("{what}: {} clusters", clusters.len())));
                 }
-                errs.extend(e.into_iter().map(|(a, b)| (a, b, json!({"mode": "flat", "k": k}))));
+                errs.extend(e.into_iter().map(|(a, b)| (a, b, json!({"mode": "flat", "k": k, "oneway": oneway}))));
             }
-            Err(p) => errs.push((format!("kmedoids:panic@{}", panic_site(&p)), p, json!({"mode": "flat", "k": k}))),
+            Err(p) => errs.push((format!("kmedoids:panic@{}", panic_site(&p)), p, json!({"mode": "flat", "k": k, "oneway": oneway}))),
         }
     }
     // hierarchical
@@ -429,9 +453,9 @@ fn check_kmedoids(points: &[Pt]) -> Vec<(String, String, Value)> {
                         }
                     }
                 }
-                errs.extend(e.into_iter().map(|(a, b)| (a, b, json!({"mode": "hierarchical", "levels": levels}))));
+                errs.extend(e.into_iter().map(|(a, b)| (a, b, json!({"mode": "hierarchical", "levels": levels, "oneway": oneway}))));
             }
-            Err(p) => errs.push((format!("kmedoids:panic@{}", panic_site(&p)), p, json!({"mode": "hierarchical", "levels": levels}))),
+            Err(p) => errs.push((format!("kmedoids:panic@{}", panic_site(&p)), p, json!({"mode": "hierarchical", "levels": levels, "oneway": oneway}))),
         }
     }
     errs
